@@ -372,7 +372,9 @@ def to_vector(c):
     if c is None or c is False:
         return c
     if hasattr(c, vector):
-        return c
+        # already labelled; normalize along the vector dimension like
+        # every other form of polarization
+        return c / np.sqrt((np.abs(c)**2).sum(vector))
     if isinstance(c, dict):
         c = c.copy()
         for key, val in c.items():
